@@ -1385,6 +1385,14 @@ func genC05(g *h.G) {
 	for _, v := range []uint64{0, 1, 2, 3, 7, 8, 9, 255, 256, 288, 511, 512, 1023, 1 << 32, 1<<63 - 1, 1 << 63, ^uint64(0)} {
 		g.Emit("hm.minbits", strconv.FormatUint(v, 10))
 	}
+	for k := uint(0); k < 64; k++ { // every power of two and its neighbours; every value below 1100 (all key sizes)
+		for _, v := range []uint64{1<<k - 1, 1 << k, 1<<k + 1} {
+			g.Emit("hm.minbits", strconv.FormatUint(v, 10))
+		}
+	}
+	for v := 0; v < 1100; v++ {
+		g.Emit("hm.minbits", strconv.Itoa(v))
+	}
 	for i := 0; i < 40; i++ {
 		g.Emit("hm.minbits", strconv.FormatUint(g.U64(), 10))
 	}
